@@ -27,7 +27,9 @@ EXPLANATION = (
     ' '
     'R-C14.5 inside the per-task loop of an evolutions batch, whether task.execute(sql=...) runs depends only on that SQL.'
     ' '
-    'R-C14.6 DatabaseState.clone() copies _tables at least as deep as add_table() nests mutable containers (depth read from the code on both sides).')
+    'R-C14.6 DatabaseState.clone() copies _tables at least as deep as add_table() nests mutable containers (depth read from the code on both sides).'
+    ' '
+    'R-C14.7 the published app_sig_is_new flag is the decision prepare() itself used (reaching definitions of its operands are the original lookup).')
 NOT_DECIDED = (
     'Statement-by-statement equality of preview and execution for every '
     'upgrade, and byte-identical output across hash seeds (needs execution '
@@ -609,7 +611,53 @@ def r6_state_clone_shares_nothing(ctx, rule_id='R-C14.6'):
                         need), key='state-clone-shallow')
 
 
+def r7_published_new_app_flag_is_the_one_used(ctx):
+    """prepare() (preview SQL) decides "this app is new here" once, from the
+    stored signature lookup, and publishes the decision as
+    self.app_sig_is_new for _build_batches() (executed SQL).  The published
+    value must be that decision: the local flag itself, or the same test
+    evaluated while `app_sig` still is the looked-up value.  Re-deriving it
+    after app_sig was rebound (to the clone of the target signature) makes
+    the two passes disagree for exactly the apps being installed."""
+    ctx.rule('R-C14.7')
+    p = ctx.program
+    f = p.func('evolve.evolve_app_task', 'EvolveAppTask.prepare')
+    g = ctx.cfg(f)
+    rd = ReachingDefs(g, f.params)
+    n = 0
+    for node in g.nodes:
+        a = node.ast
+        if not (node.kind == 'stmt' and isinstance(a, ast.Assign) and any(
+                isinstance(t, ast.Attribute) and t.attr == 'app_sig_is_new'
+                and isinstance(t.value, ast.Name) and t.value.id == 'self'
+                for t in a.targets)):
+            continue
+        n += 1
+        bad = None
+        for x in ast.walk(a.value):
+            if isinstance(x, ast.Name) and x.id != 'app_sig_is_new' and \
+                    isinstance(x.ctx, ast.Load):
+                for d in rd.reaching(node, x.id):
+                    v = d.value
+                    if not (isinstance(v, ast.Call) and
+                            call_name(v) in ('get_app_sig',)):
+                        bad = (x.id, d)
+        if bad:
+            ctx.finding(f, a, 'self.app_sig_is_new is computed from %s after '
+                        'it was rebound (line %s): prepare() and '
+                        '_build_batches() disagree about whether the app is '
+                        'new, so the executed batch contains SQL the preview '
+                        'never showed' % (
+                            bad[0], getattr(bad[1].node.stmt, 'lineno', '?')),
+                        key='new-app-flag-rederived')
+        else:
+            ctx.ok(f, 'the published flag is the decision prepare() itself '
+                   'used', a)
+    ctx.floor('stores of self.app_sig_is_new in prepare()', n, 1)
+
+
 def run(ctx):
+    r7_published_new_app_flag_is_the_one_used(ctx)
     r6_state_clone_shares_nothing(ctx)
     r5_task_sql_execution_depends_only_on_sql(ctx)
     r1_determinism(ctx)
